@@ -81,6 +81,10 @@ type WorkerOut struct {
 	AutoSkipped []string          `json:"undiscoverable_methods,omitempty"` // outside the catalogue and not callable with generated arguments
 }
 
+// VERIF_DEBUG_ENDS=1: print the first few runs of a worker that did not end normally (diagnosis).
+var debugEnds = os.Getenv("VERIF_DEBUG_ENDS") != ""
+var debugShown int
+
 func hash64(s string) uint64 {
 	h := fnv.New64a()
 	h.Write([]byte(s))
@@ -207,6 +211,11 @@ func explore(t *testing.T, selftest bool) {
 		}
 		w.Runs++
 		addStats(w, out)
+		if debugEnds && out.End != simrt.EndOK && debugShown < 3 {
+			debugShown++
+			raw, _ := json.Marshal(work)
+			fmt.Fprintf(os.Stderr, "DEBUG-END %s idx=%d steps=%d detail=%s\n  %s\n", out.End, idx, out.Stats.Steps, out.EndDetail, raw)
+		}
 		if sw, ok := work.(interface{ ShapeName() string }); ok {
 			w.Shapes[sw.ShapeName()]++
 		}
